@@ -288,5 +288,36 @@ def r17_4(ctx):
     return r
 
 
+HS = "transports::dtls::DtlsInner::handshake::{closure#0}"
+
+
+def r17_5(ctx):
+    """the DTLS handshake loop is the only writer of the DTLS state watch besides the runner wrapper (which
+    publishes Failed for an Err). Everything that waits for the transport - start_dtls during start-up, the
+    connection task afterwards - waits on that watch, so the loop may end with Ok only after publishing a
+    terminal state; otherwise a close() landing mid-handshake leaves the waiter, and the strong reference to
+    the connection it holds, parked for ever."""
+    r = RuleResult("R17.5", "K4", "the DTLS handshake loop never ends without publishing a terminal state")
+    b = ctx.body(HS)
+    r.scope.append(HS)
+    term_send = [bi for bi, t, p in b.calls()
+                 if p and p.endswith("watch::Sender::<T>::send") and len(t["a"]) == 2 and
+                 mir.has_field(b.term_operand(t["a"][0]), "state_tx") and
+                 (lambda v: v[0] == "agg" and v[1].endswith("DtlsState") and v[2] in ("Closed", "Failed"))(b.term_operand(t["a"][1]))]
+    oks = core.ok_return_blocks(b)
+    r.need("Ok returns of the handshake loop", len(oks), 2)
+    r.need("terminal state publications", len(term_send), 2)
+    for rb in oks:
+        if core.must_pass(b, rb, term_send):
+            r.ok({"return": b.where(rb), "after": "state_tx.send(Closed | Failed)"})
+        else:
+            p = b.path_to([0], rb, cut_blocks=set(term_send))
+            r.violate(HS, "return:Ok", b.where(rb),
+                      "the handshake loop can return Ok without publishing Closed/Failed on the state watch: waiters such as "
+                      "start_dtls() then hang (close() during the handshake never releases the connection)",
+                      core.describe_path(b, p) if p else "")
+    return r
+
+
 def run(ctx):
-    return [r17_1(ctx), r17_2(ctx), r17_3(ctx), r17_4(ctx)]
+    return [r17_1(ctx), r17_2(ctx), r17_3(ctx), r17_4(ctx), r17_5(ctx)]
